@@ -26,7 +26,7 @@ func (c *Ctx) wireObs(sel func(pkgRel, typ string) bool) []core.Ob {
 
 func init() {
 	Props["C06"] = PropDef{
-		Explanation: "R-WIRESYM wire-signature symmetry; R-DISCARD; R-TLG; R-RAWREAD; R-ERRFLOW (E1-E4, deferred completion); R-POOL; T-VARLEN; T-BITFIELD; R-LENPREFIX; R-COUNT counting wrapper; T-BITSETSIZE; R-NOBUF; R-LEN reflect slice length; R-ERRFLOW E3 for the module's own decoders. Decided: For every net/packet field type the writer's and reader's wire signatures agree on every non-error path; length prefixes are the byte length of what follows; packed words keep their fields disjoint; byte counts include every consuming method of the counting reader; FixedBitSet allocates exactly the bytes its accessors address; errors are not swallowed. Value equality is not decided.",
+		Explanation: "R-WIRESYM wire-signature symmetry; R-DISCARD; R-TLG; R-RAWREAD; R-ERRFLOW (E1-E4, deferred completion); R-POOL; T-VARLEN; T-BITFIELD; R-LENPREFIX; R-COUNT counting wrapper; T-BITSETSIZE; R-NOBUF; R-LEN reflect slice length; R-ERRFLOW E3 for the module's own decoders; T-BITFIELD shift overflow. Decided: For every net/packet field type the writer's and reader's wire signatures agree on every non-error path; length prefixes are the byte length of what follows; packed words keep their fields disjoint; byte counts include every consuming method of the counting reader; FixedBitSet allocates exactly the bytes its accessors address; errors are not swallowed. Value equality is not decided.",
 		Run: func(c *Ctx) []core.Ob {
 			obs := c.wireObs(func(p, t string) bool { return p == "net/packet" })
 			for _, o := range c.Discard() {
@@ -56,7 +56,7 @@ func init() {
 		},
 	}
 	Props["C12"] = PropDef{
-		Explanation: "R-WIRESYM; R-TLG; T-PALCFG decision partitions, width bounds, recorded width; R-ORDER palette-read fresh palette, resize copies every position; T-BSINV; T-BSFIX derived fields; R-ACCEPT palette size bound admits a full palette; T-BSINV direct width. Decided: Reader and writer agree on [bits byte, palette, data array]; create/WithData/bits choose by the same classes and widths within bounds; ReadFrom never refills a used palette and a size bound computed from the index width lets 1<<bits entries through; the resize copies every position unconditionally and records the created width; Fix refreshes every width-derived field; saved longs are read back with the width they were written with (two known findings). Array semantics across upgrades are not decided.",
+		Explanation: "R-WIRESYM; R-TLG; T-PALCFG decision partitions, width bounds, recorded width; R-ORDER palette-read fresh palette, resize copies every position; T-BSINV; T-BSFIX derived fields; R-ACCEPT palette size bound admits a full palette; T-BSINV direct width; R-ORDER a refused Fix changes nothing. Decided: Reader and writer agree on [bits byte, palette, data array]; create/WithData/bits choose by the same classes and widths within bounds; ReadFrom never refills a used palette and a size bound computed from the index width lets 1<<bits entries through; the resize copies every position unconditionally and records the created width; Fix refreshes every width-derived field; saved longs are read back with the width they were written with (two known findings). Array semantics across upgrades are not decided.",
 		Run: func(c *Ctx) []core.Ob {
 			// the palette kinds: whatever types of the package implement the interface of the container's palette slot
 			names := map[string]bool{"PaletteContainer": true, "BitStorage": true}
@@ -140,7 +140,7 @@ func init() {
 		},
 	}
 	Props["C19"] = PropDef{
-		Explanation: "R-SCHEMA; R-ORDER (stable sort, dispatch order and its callers, compression switch on both ends, offline UUID origin, drain-before-close); R-POOL; R-LENPREFIX; R-ERRFLOW; R-ERRAS errors.As target form; R-POOL put-after-retain; sorted insertion (sort.Search) accepted with a strict predicate. Decided: For each gate packet the receiver scans a prefix of what the sender marshals; both ends switch compression at the same frame for every threshold value; handler tables are kept in descending priority with ties in registration order (stable sort or strict sorted insertion); dispatch stops at the first error in every caller; queued packets survive Close; packet buffers are not recycled under a queued or retained packet; errors.As looks for the form in which the module creates the error; string lengths are byte lengths. One known finding (registry-data layout). Join completion is not decided.",
+		Explanation: "R-SCHEMA; R-ORDER (stable sort, dispatch order and its callers, compression switch on both ends, offline UUID origin, drain-before-close); R-POOL; R-LENPREFIX; R-ERRFLOW; R-ERRAS errors.As target form; R-POOL put-after-retain; sorted insertion (sort.Search) accepted with a strict predicate; R-TLG over package bot (a received packet id indexes the handler table only inside both bounds); R-NILMAP maps in struct fields exist where a handler assigns into them. Decided: For each gate packet the receiver scans a prefix of what the sender marshals; both ends switch compression at the same frame for every threshold value; handler tables are kept in descending priority with ties in registration order (stable sort or strict sorted insertion); dispatch stops at the first error in every caller; queued packets survive Close; packet buffers are not recycled under a queued or retained packet; errors.As looks for the form in which the module creates the error; string lengths are byte lengths. The bot's own dispatch indexes its per-id table only with ids inside it, and maps a packet handler assigns into are made by the constructor. One known finding (registry-data layout). Join completion is not decided.",
 		Run: func(c *Ctx) []core.Ob {
 			obs := c.Schema()
 			obs = append(obs, c.HandlerSort()...)
